@@ -44,6 +44,25 @@ ALREADY = """
 - `Concatenate` keeping the child's other bindings in its row; `ElseIf` dropping `left_value.update(sources)`
 - `DomainMapping` computing `_is_false_` as `v.value == self._invert_`; `Not()` negating a description in place
 - removing the try/finally around `Variable._evaluate_kwargs_expression_`; un-inferring selected variables after the loop only
+- `refinement()` choosing the slot to re-link by the parent's class; `ExceptIf` evaluating the refinement with `yield_when_false`
+- dropping `self.left._is_false_ = True` from the "left yielded nothing" branch of `ElseIf`
+- the `@predicate` wrapper converting positional arguments to keywords before the mode test; `let` rebuilding the mode from a boolean;
+  a `yield from` inside `with symbolic_mode(mode=None)`
+- `_falsy_value_is_false_` moved / overridden; a guard on `self.variable._is_false_` in `ForAll`; `Add` evaluating its value with `_evaluate__`
+- `assignment.get(k) or All` in `IndexedCache.insert`; `seen_set.add(assignment)` without the copy; a memo of `check` answers;
+  dropping the wildcard fallback in `retrieve`; moving the key-less early return of `insert` below `seen_set.add`
+- moving `position = len(self.pulled)` below the snapshot in `HashedIterable.__iter__`; removing its re-read of the record after `yield`;
+  `__len__` by iterating; removing the "already memoised" guard
+- `Comparator._evaluate__` collecting its rows in a list; the bound-again branches of `DomainMapping` / `Comparator` ignoring `_invert_`,
+  testing the wrapper, or dropping `yield_when_false`
+- `QueryObjectDescriptor._reset_only_my_cache_` resetting only `selected_variable._var_`; `_cache_keys_` memoised; `get_cache_keys_for_class_` via `__subclasses__()`
+- `The._evaluate_` never setting `_is_false_` back; `The.evaluate` / `An.evaluate` without (or with a conditional) `symbolic_mode(mode=None)`
+- `HashedValue` ids from `hash(value)`; the conclusion-store filter dropping Flatten
+- the precedence slip in `yield_final_output_from_cache`; dropping `self._child_._eval_parent_ = self`; `parent_id = self._id_` in `_is_duplicate_output_`
+- `QueryObjectDescriptor._all_variable_instances_` with `elif`; the `From(...)` slot correction in `update_domain_and_kwargs_from_args`;
+  `SetOf._evaluate__` not passing `yield_when_false`; `ConclusionSelector._caching_enabled_` returning the switch
+- `ForAll` not emptying `solution_set`, extending `sources` in place, dropping its `condition._is_false_` guard; `AND` dropping `output.update(left_value)`
+- `Concatenate` reusing the first inner list, `concatenate(flatten(x))` short-circuited, `Concatenate._all_variable_instances_` returning []
 """
 TEMPLATE = """# Task
 
